@@ -105,3 +105,61 @@ Example inode_clause_observation :
   meta_match {| ignore_ctime := false; ignore_inode := false |} f3 moved = true /\
   meta_match {| ignore_ctime := false; ignore_inode := true |} f3 moved = false.
 Proof. vm_compute. split; reflexivity. Qed.
+
+(* ---------------------------------------------------------------- path streams *)
+From Verif.C11 Require Import ModelIter ProofsIter ProofsPipe ModelSelect ProofsSelect.
+
+(* `backup /1/2 /1/5`: two backup paths with the common root /1; the walker yields items for the
+   directories 2 and 5 and what is below them; TreeIterator synthesises /1 once *)
+Definition d5 := mk 5 TDir 0 10 10 75.
+Definition ws_two_paths : list (wsrc D_ex) :=
+  [WDir false 1 (synth 1) [WDir true 2 d2 [WLeaf f3 [43]]; WDir true 5 d5 [WLeaf f4 [44]; WDir true 6 (mk 6 TDir 0 10 10 76) []]]].
+
+Example two_paths_stream :
+  map (fun it => (i_path D_ex it, n_name (i_node D_ex it))) (flat_map (stream_of D_ex [CRoot]) ws_two_paths)
+  = [([CRoot; CNormal 1; CNormal 2], 2); ([CRoot; CNormal 1; CNormal 2], 3);
+     ([CRoot; CNormal 1; CNormal 5], 5); ([CRoot; CNormal 1; CNormal 5], 4); ([CRoot; CNormal 1; CNormal 5; CNormal 6], 6)].
+Proof. vm_compute. reflexivity. Qed.
+
+Example two_paths_items :
+  titer D_ex 20 (flat_map (stream_of D_ex [CRoot]) ws_two_paths)
+  = Some [EvNew (synth 1) 1; EvNew d2 2; EvOther f3 (Some [43]); EvEnd;
+          EvNew d5 5; EvOther f4 (Some [44]); EvNew (mk 6 TDir 0 10 10 76) 6; EvEnd; EvEnd; EvEnd].
+Proof. vm_compute. reflexivity. Qed.
+
+Example two_paths_wellformed : allP (wfw D_ex) ws_two_paths /\ NoDup (dir_comps D_ex ws_two_paths).
+Proof.
+  split.
+  - cbn. repeat split; try discriminate; repeat constructor; cbn; intuition discriminate.
+  - cbn. repeat constructor. intros [].
+Qed.
+
+(* mixed anchors: after /1 an item with a relative path — the real iterator yields EndTree for ever *)
+Example mixed_anchors_diverge :
+  titer D_ex 50 [{| i_path := [CRoot; CNormal 1]; i_node := d2; i_open := None |};
+                 {| i_path := [CNormal 2]; i_node := d5; i_open := None |}] = None.
+Proof. vm_compute. reflexivity. Qed.
+
+(* the source of Examples.cs1 located at `/`, as a path stream, with the parent root0: the whole
+   pipeline gives the tree of the full backup, with and without parent *)
+Definition ws1 : list (wsrc D_ex) := [WLeaf f1' [51]; WDir true 2 d2 [WLeaf f3 [43]]; WLeaf f4 [44]].
+Example stream_backup_equals_full :
+  map (to_src D_ex) ws1 = cs1 /\
+  backup_stream D_ex chunks_ex tid_ex o_ex st_ex ix_all 20 [root0] false (flat_map (stream_of D_ex [CRoot]) ws1)
+    = Some (tid_ex (map ra cs1)) /\
+  backup_stream D_ex chunks_ex tid_ex o_ex st_ex ix_all 20 [root0] true (flat_map (stream_of D_ex [CRoot]) ws1)
+    = Some (tid_ex (map ra cs1)).
+Proof. vm_compute. repeat split. Qed.
+
+(* selection: latest of the same group (host, label, paths), explicit ids bypass the group, a missing id drops all *)
+Definition snA := {| s_id := 1; s_time := 5; s_host := 1; s_label := 1; s_paths := 1; s_tags := 0; s_tree := root0 |}.
+Definition snB := {| s_id := 2; s_time := 9; s_host := 2; s_label := 1; s_paths := 1; s_tags := 0; s_tree := sub0 |}.
+Definition snC := {| s_id := 3; s_time := 7; s_host := 1; s_label := 1; s_paths := 1; s_tags := 0; s_tree := root0 |}.
+Definition me_ex := {| s_id := 0; s_time := 6; s_host := 1; s_label := 1; s_paths := 1; s_tags := 0; s_tree := 0 |}.
+Example selection_examples :
+  select false [] crit_default me_ex [snA; snB; snC] = [snC] /\          (* newest of host 1 — although newer than `me` *)
+  select false [] {| c_host := false; c_label := true; c_paths := true; c_tags := false |} me_ex [snA; snB; snC] = [snB] /\
+  select false [2; 1] crit_default me_ex [snA; snB; snC] = [snB; snA] /\  (* explicit: request order, group not consulted *)
+  select false [2; 8] crit_default me_ex [snA; snB; snC] = [] /\          (* one unreadable id: no parent at all *)
+  select true [2] crit_default me_ex [snA; snB; snC] = [].
+Proof. vm_compute. repeat split. Qed.
